@@ -2,3 +2,7 @@ import Mamba.Basic
 import Mamba.Proto
 import Mamba.Drv.All
 import Mamba.Props.C18
+import Mamba.Props.C13
+import Mamba.Props.C20
+import Mamba.Props.C05
+import Mamba.Props.C19
